@@ -44,7 +44,7 @@ def kv(line):
 def gen_case(rng, i, tier):
     ch = rng.choice(CHANNELS + [2])
     rate = rng.choice(RATES)
-    cls = rng.choice([0, 1, 2, 3, 4, 4, 5, 6, 7, 7])
+    cls = rng.choice([0, 1, 2, 3, 4, 4, 5, 6, 7, 7, 8, 8])
     n = rng.choice(LENGTHS)
     if rng.random() < 0.8:
         q = rng.choice(ALLQ)
@@ -90,7 +90,7 @@ def oracle(line, meta):
     selfs = f["self"].split(",")
     snrs = f["snr"].split(",")
     wwin = f.get("wwin", "").split(",")
-    cc = pc if (cls in CAL or cls == 7) else None
+    cc = pc if (cls in CAL or cls in (7, 8)) else None
     for c in range(ch):
         if c == lfe:
             continue
@@ -99,7 +99,7 @@ def oracle(line, meta):
             if cc[0] < 10 ** 8 and int(snrs[c]) < cc[0] - CELL_MARGIN:
                 return "noise: channel %d SNR %.1f dB at %s %s; the bound for this signal, layout and setting is %.1f dB" % (
                     c, int(snrs[c]) / 10.0, "nominal bitrate" if mode else "quality", q, (cc[0] - CELL_MARGIN) / 10.0)
-            if cls in (0, 4, 5, 7) and cc[1] < 10 ** 8 and c < len(wwin) and not wwin[c].startswith("S") and int(wwin[c]) < cc[1] - WIN_MARGIN:
+            if cls in (0, 4, 5, 7, 8) and cc[1] < 10 ** 8 and c < len(wwin) and not wwin[c].startswith("S") and int(wwin[c]) < cc[1] - WIN_MARGIN:
                 return "burst: channel %d: the worst 256-sample window has its error only %.1f dB under the signal level at %s %s; bound %.1f dB" % (
                     c, int(wwin[c]) / 10.0, "nominal bitrate" if mode else "quality", q, (cc[1] - WIN_MARGIN) / 10.0)
         if cls in LAGCLASSES and lags[c] != "0":
@@ -137,6 +137,9 @@ def run(chk):
                 gens.append((["case %d" % k, "sig %d %d 0 %s 40000 %d %d" % (ch, rate, q, cls, 7 + k)], (ch, rate, 0, q, cls)))
                 k += 1
     # every encoder template that has its own residue books at the bottom of the quality range / at low managed bitrates
+    for (ch, rate, q) in ((2, 44100, 0.6), (2, 44100, 0.9), (1, 44100, 0.7), (3, 48000, 0.8), (2, 32000, 0.7), (6, 44100, 0.6), (2, 22050, 0.8)):
+        gens.append((["case %d" % k, "sig %d %d 0 %s 40000 8 %d" % (ch, rate, q, 7 + k)], (ch, rate, 0, q, 8)))
+        k += 1
     for cls in (7,):
         # an onset in the first channel only, at every layout family with two block sizes
         for (ch, rate, mode, q) in ((2, 44100, 0, 0.5), (2, 48000, 0, 0.1), (2, 32000, 0, 0.9), (3, 44100, 0, 0.5), (6, 44100, 0, 0.3), (2, 22050, 0, 0.5),
@@ -180,7 +183,7 @@ def run(chk):
     if broken and not crash and not ofail:
         chk.violation("proof", "proof obligation no longer checks: " + "; ".join(broken)[:600], {"broken": broken, "lean_log": getattr(chk, "lean_log", "")[-3000:]}, False)
     chk.coverage["rule"] = ("signal family (7 classes: multitone with distinct partials per channel, sweep, low-passed independent noise, click trains with distinct offsets, multitone with a silent "
-                            "first channel, tone bursts with exact zeros, noise bursts, sharp onsets in the first channel only) x 1-8 channels x 7 rates x quality -0.1..1.0 / managed nominal rates; measured per channel on the decoded "
+                            "first channel, tone bursts with exact zeros, noise bursts, sharp onsets in the first channel only, a quiet low tone next to / after a loud one) x 1-8 channels x 7 rates x quality -0.1..1.0 / managed nominal rates; measured per channel on the decoded "
                             "output: finiteness, length, peak ratio, best cross-correlation lag over {0,±1..±4,±8,...,±2048} (aperiodic classes), which input channel it matches, SNR against its own input; "
                             "SNR bound = per-class minimum measured on the unchanged tree minus 6 dB, interpolated and made monotone in the quality setting; and per cell (class, channels, rate, "
                             "quality or nominal bitrate): the cell's minimum over three lengths (two seeds for noise) measured by tools/calibrate_c06.py minus 6 dB, plus the worst 256-sample window's error "
